@@ -1560,8 +1560,58 @@ fn c16_filter_block_unchecked(dir: PathBuf) -> ScenFut<'static> {
     })
 }
 
+fn c15_failed_commit_record_stays_in_log(dir: PathBuf) -> ScenFut<'static> {
+    Box::pin(async move {
+        // a transaction that cannot fit any memtable: its record reaches the commit log, the
+        // apply step fails, commit() returns an error
+        let cfg = Cfg { max_memtable_size: 16 * 1024, ..base_cfg() };
+        let t = cfg.open(&dir).map_err(|e| e.to_string())?;
+        put(&t, &[(b"a", b"1")]).await?;
+        let big = vec![0x42u8; 64 * 1024];
+        let r = put(&t, &[(b"big", &big[..]), (b"a", b"overwritten-by-failed-commit")]).await;
+        let live_a = get1(&t, b"a")?;
+        let live_big = get1(&t, b"big")?;
+        let after = put(&t, &[(b"b", b"2")]).await;
+        close(t).await;
+        if r.is_ok() {
+            return Err("harness: the oversized transaction was accepted (scenario needs a failing commit)".into());
+        }
+        if live_a.as_deref() != Some(&b"1"[..]) || live_big.is_some() {
+            return Err(format!("commit returned an error ({}), yet a reader begun afterwards sees its writes (a = {:?}, big present: {})", r.unwrap_err(), live_a.map(|v| String::from_utf8_lossy(&v).to_string()), live_big.is_some()));
+        }
+        let t = match cfg.open(&dir) {
+            Ok(t) => t,
+            Err(e) => return Err(format!("a commit failed in its apply step ({}); the store was closed; reopen fails: {e}", r.unwrap_err())),
+        };
+        let a = get1(&t, b"a")?;
+        let big_now = get1(&t, b"big")?;
+        let b = get1(&t, b"b")?;
+        close(t).await;
+        if a.as_deref() != Some(&b"1"[..]) || big_now.is_some() {
+            return Err(format!(
+                "commit() of a transaction returned an error ({}) after its record had reached the commit log; after close + reopen the failed transaction is there: a = {:?}, big present: {} (later commit b {} and is {} after reopen)",
+                r.unwrap_err(),
+                a.map(|v| String::from_utf8_lossy(&v).to_string()),
+                big_now.is_some(),
+                if after.is_ok() { "was acknowledged" } else { "failed" },
+                if b.is_some() { "present" } else { "absent" }
+            ));
+        }
+        if after.is_ok() && b.as_deref() != Some(&b"2"[..]) {
+            return Err("a commit acknowledged after the failed one is missing after reopen".into());
+        }
+        Ok(())
+    })
+}
+
 pub fn all() -> Vec<Scenario> {
     vec![
+        Scenario {
+            id: "C15-oversize-transaction-logged-then-rejected",
+            property: "C15",
+            title: "transaction larger than a memtable: commit fails; then close + reopen",
+            run: c15_failed_commit_record_stays_in_log,
+        },
         Scenario {
             id: "C16-filter-block-unchecked",
             property: "C16",
